@@ -72,7 +72,7 @@ CLAIMED["C19"] = {
 
 CLAIMED["C13"] = {
     "text": "to_standard_form is proved slice by slice (Verus, statement slices of the real function lifted mechanically; a tiling guard checks on every run that EVERY top-level statement of the function "
-            "belongs to one of the slices, in order, or is one of three listed statements: into_parts, the counter record, the final constructor call). "
+            "belongs to one of the slices, in order, or is one of three listed statements: into_parts, the counter record, the final constructor call (StandardLinearModel::new, itself under contract in U13.new: rows and objective padded with zeros to the number of variables evaluate as before)). "
             "Kind check (U13.kind, with find_invalid_variables proved for every validator: it lists exactly entries the validator rejects, and nothing when it accepts all): the conversion goes on only when every variable of the domain is Real or NonNegativeReal. Bound rows (U13.bnd): for every assignment that respects the sign restriction of the non-negative variables, the added rows hold exactly when every variable lies in its declared range; added rows are unit rows with finite right-hand sides. "
             "Free list (U13.free): exactly the positions of kind Real, increasing. Appending half of the split (U13.split): every row and the objective get the pair (c, -c) per free variable in list order, names / non-negative domain entries / the column counter follow; "
             "the new row's value is the old value plus c_f * (z_p - z_m) per free variable. Removing half (U13.drop, with remove_many proved for every length in U13.rmv): rows, objective and names lose exactly the listed positions in order, the domain loses exactly those entries, "
